@@ -150,20 +150,28 @@ class Recorder:
                 reqs = [q for q in reqs if q != ["gotoHere"] and not (q[0] == "onRefused" and q[1] == ["gotoHere"])]
             row = {"n": n, "cb": kind, "key": key, "t": t, "reqs": reqs}
             self.table[k] = row
-        for spec in row["reqs"]:
-            if spec[0] == "onRefused":
-                ok = self.issue(proto, n, spec[1])
-                if not ok:
-                    for alt in spec[2]:
-                        self.issue(proto, n, alt)
-            else:
-                self.issue(proto, n, spec)
+        self._cb_kind = kind
+        start = len(self.trace)
+        try:
+            for spec in row["reqs"]:
+                if spec[0] == "onRefused":
+                    ok = self.issue(proto, n, spec[1])
+                    if not ok:
+                        for alt in spec[2]:
+                            self.issue(proto, n, alt)
+                else:
+                    self.issue(proto, n, spec)
+        except Exception:
+            # the exception escapes the callback: what this callback did is what it did before raising
+            row["reqs"] = [e[2] for e in self.trace[start:] if e[0] == "req"]
+            raise
 
     def external(self, proto, n, reqs):
         """requests issued through the provider from outside any callback (an external controller between
         two steps); relative timers are resolved against the clock the provider reports now.
         Returns the resolved requests."""
         now = to_ticks(proto.provider.current_time(), self.tick)
+        self._cb_kind = "external"
         self.trace.append(["ext", n, now])
         out = []
         for req in reqs:
@@ -180,7 +188,11 @@ class Recorder:
         except Exception as e:  # a refused request raises; the protocol catches it
             ok = False
             self.exc_types.append(type(e).__name__)
-            if self.scn.get("escapeAt") == len(self.exc_types):
+            drv = self.scn.get("drive", {})
+            if self.scn.get("escapeAt") == len(self.exc_types) and \
+                    (not self.scn.get("tolerant") or
+                     (getattr(self, "_cb_kind", None) in ("timer", "packet", "telemetry")
+                      and drv.get("mode") == "steps" and not drv.get("untilDone"))):
                 # scenario flag escapeAt: this protocol does NOT catch its k-th refusal - the exception
                 # leaves the callback and aborts the run (only C06 uses it: an aborted run is aborted
                 # the same way however it is driven)
@@ -540,6 +552,7 @@ def run_impl(scn, behaviour=None, sim_options=None, draw_seed=0, keep_logging=Fa
     prescribed = [bitsf(b) for b in scn["cfg"].get("draws", [])] if scn.get("prescribedDraws") else None
     source = GlobalDrawSource(draw_seed) if global_random else DrawSource(draw_seed, prescribed)
     rets = []
+    raised = []
     resolved = []
     crash = None
     with patched_random(source):
@@ -560,6 +573,7 @@ def run_impl(scn, behaviour=None, sim_options=None, draw_seed=0, keep_logging=Fa
             for row in scn.get("prestart", []):
                 # requests through the provider after build() and before the first step
                 proto = sim.get_node(row["n"]).protocol_encapsulator.protocol
+                rec._cb_kind = "prestart"
                 for req in row["reqs"]:
                     rec.issue(proto, row["n"], req)
             between = sorted(scn.get("between", []), key=lambda row: row["at"])
@@ -597,7 +611,17 @@ def run_impl(scn, behaviour=None, sim_options=None, draw_seed=0, keep_logging=Fa
                         if shadow is not None:
                             shadow.step()
                         controller(i)
-                        rets.append(bool(sim.step_simulation()))
+                        if scn.get("tolerant"):
+                            # a driver that survives a callback's exception and keeps stepping the same simulator
+                            try:
+                                rets.append(bool(sim.step_simulation()))
+                            except Runaway:
+                                raise
+                            except Exception:
+                                raised.append(len(rets))
+                                rets.append(True)
+                        else:
+                            rets.append(bool(sim.step_simulation()))
         except Exception as e:  # an exception escaping the simulator aborts the run
             crash = f"{type(e).__name__}: {e}"
         finally:
@@ -627,7 +651,7 @@ def run_impl(scn, behaviour=None, sim_options=None, draw_seed=0, keep_logging=Fa
         "drawsUsed": used, "draws": [fbits(v) for v in source.values + extra],
         "table": list(rec.table.values()), "crash": crash, "excTypes": rec.exc_types,
         "identities": rec.identities, "ownPos": rec.own_pos, "addedIds": getattr(rec, "added_ids", None),
-        "between": resolved, "timeTypes": rec.time_types,
+        "between": resolved, "timeTypes": rec.time_types, "raisedAt": raised,
     }
 
 
@@ -642,6 +666,8 @@ def to_driver(scn, impl_result):
         d["wantPos"] = True
     if scn.get("prestart"):
         d["prestart"] = scn["prestart"]
+    if impl_result.get("raisedAt"):
+        d["raisedAt"] = impl_result["raisedAt"]       # the step calls out of which a callback's exception escaped
     if impl_result.get("between"):
         d["between"] = impl_result["between"]     # with relative timers resolved as the implementation resolved them
     return d
